@@ -48,6 +48,11 @@ def check(ctx):
              "`no line yet` and `the open wrapped block (if any) has no content` (WrappedBlock::is_empty) — a cell holding only "
              "white space opens a block that flushes to nothing, and a row of such cells drawn anyway is two rules with nothing between")
     ctx.guard("C05-K", rule_k)
+    ctx.rule("C05-L", "a rule stays a rule until it is output: border lines (RenderLine::Line / BorderHoriz) are turned into text only "
+             "at the reviewed places — when a finished block is copied into its parent (append_subrender, "
+             "append_columns_with_borders) and at the final conversion (into_lines / into_string); the junction bookkeeping "
+             "of the next row looks for a border line, a rule stored as text gets no junctions")
+    ctx.guard("C05-L", rule_l)
     # bars stand at the same positions in every row only if every row walks the columns the same way: the column
     # cursors advance by the cell's colspan on every path (rule shared with C06-A)
     from . import C06
@@ -252,6 +257,51 @@ def _rule_c_iterator_form(ctx, F, b, fname, join, names):
     ctx.check(bool(b.calls(lambda cd, t: callee_method(t) == "enumerate")) and
               not b.calls(lambda cd, t: callee_method(t) in ("rev", "skip", "step_by", "take", "skip_while", "take_while")), "C05-C",
               fname + ":idx-from-enumerate", b.span, b.id, "")
+
+
+BORDER_TO_TEXT = ("RenderLine::<T>::into_tagged_line", "RenderLine::<T>::to_string", "BorderHoriz::<T>::to_string",
+                  "BorderHoriz::<T>::into_tagged_line", "BorderHoriz::<T>::into_string")
+BORDER_TO_TEXT_OK = {
+    "render::text_renderer::RenderLine::<T>::to_string": "the conversion itself",
+    "render::text_renderer::RenderLine::<T>::into_tagged_line": "the conversion itself",
+    RTRAIT + "append_subrender": "a finished inner block is copied into its parent line by line; its rules become text behind the prefix",
+    RTRAIT + "append_columns_with_borders": "the cells' lines (rules of nested tables included) are copied into the row's text lines",
+    "RenderedText::<D>::into_lines": "final conversion of the rendered lines",
+    "render::text_renderer::SubRenderer::<D>::into_string": "final conversion of the rendered lines",
+    "render::text_renderer::SubRenderer::<D>::to_string": "debug/trace output",
+}
+
+
+def rule_l(ctx):
+    F = ctx.facts
+    n = 0
+    for b in F.bodies.values():
+        if b.raw.get("from_expansion") and b.kind != "Closure":
+            continue
+        root = b.root if b.kind == "Closure" else b.id
+        hits = set()
+        for bb in b.reachable():
+            t = b.term(bb)
+            if t["k"] == "call" and any(ends(callee_def(t) or "", nm) for nm in BORDER_TO_TEXT):
+                hits.add((callee_def(t).split("::")[-1], t["span"]))
+            ops = list(t.get("args") or []) + [o for st in b.stmts(bb) for o in ((st.get("rv") or {}).get("ops") or []) + [(st.get("rv") or {}).get("use")] if o]
+            for o in ops:
+                k = op_const(o) if isinstance(o, dict) else None
+                if k and "fn" in k:
+                    d = k["fn"].get("resolved") or k["fn"].get("def") or ""
+                    if any(ends(d, nm) for nm in BORDER_TO_TEXT):
+                        hits.add((d.split("::")[-1], b.term(bb).get("span", b.span)))
+        for nm, span in sorted(hits):
+            n += 1
+            why = BORDER_TO_TEXT_OK.get(root)
+            key = "border-to-text@%s:%s" % (fn_key(b), nm)
+            if why:
+                ctx.ok("C05-L", key, span, b.id, why, how="table")
+            else:
+                ctx.violation("C05-L", key, span, b.id,
+                              "a border line is converted into text here (%s): stored as text, the rule no longer takes part in the "
+                              "junction bookkeeping of the rows drawn after it" % nm)
+    ctx.floor("C05-L", "border-to-text conversions (all reviewed)", n, 4)
 
 
 def rule_k(ctx):
